@@ -105,7 +105,7 @@ def load_harnesses():
 def _env():
     env = dict(os.environ)
     env["CARGO_NET_OFFLINE"] = "true"
-    env.pop("RUSTFLAGS", None)
+    env["RUSTFLAGS"] = "--cfg lexical_verif"   # the guard of the add-only hooks in /repo
     return env
 
 
@@ -280,7 +280,15 @@ def run_group(label, hs, featset, jobs=8):
             classes["assert"] = [("(failed check not listed)", "")]
         if h.tolerate == "panic":
             classes.pop("assert", None)
+        elif h.tolerate:
+            # expected panic at a named location (e.g. build_strict on an invalid format)
+            for k in list(classes):
+                classes[k] = [c for c in classes[k] if not re.search(h.tolerate, c[1])]
+                if not classes[k]:
+                    classes.pop(k)
         if set(classes) <= {"unwind"}:
+            if not classes and h.tolerate and h.tolerate != "panic" and d["failed"] == 0:
+                pass
             if classes:
                 r.obls.append(Obl(oname, label, "kani-cbmc", "undecided", bounded=h.bound,
                                   detail="unwinding bound exceeded (harness bound too small for the current code): %s" % classes))
